@@ -183,6 +183,8 @@ def main():
             allsites.append((rel, kind, idx))
     rng.shuffle(allsites)
     jobs = [(rel, kind, idx, 'seed%s' % opt['--seed']) for rel, kind, idx in allsites[:int(opt['--n'])]]
+    if '--only' in opt:      # file:kind:site,... (re-run of mutants whose checks were inconclusive on a loaded machine)
+        jobs = [(a, b, int(c), 'rerun') for a, b, c in (x.split(':') for x in opt['--only'].split(','))]
     print('%d sites in total, running %d' % (len(allsites), len(jobs)), flush=True)
     with concurrent.futures.ThreadPoolExecutor(int(opt['--jobs'])) as ex, open(opt['--out'], 'a') as f:
         for res in ex.map(run_one, jobs):
